@@ -766,12 +766,17 @@ class Exec(object):
                     d[a.name] = self.cv(v)
                 out[self.label_of(obj)] = d
         return out
+    def universe(self, root):
+        """the labels 1..3 of an entity plus every further object the program holds (a second object with an
+        automatic key created in this session)"""
+        base = self.env.labels_of(root, (1, 2, 3))
+        return base + sorted(l for l in self.refs if l.split(':')[0] == root and l not in base)
     def op_view_noflush(self):
         """public view of the objects the program holds or can reach through key lookups,
         read without issuing a query over the entity (does not force a flush by itself)"""
         out = {}
         for root in self.env.root_entities:
-            for label in self.env.labels_of(root, (1, 2, 3)):
+            for label in self.universe(root):
                 try: obj = self.resolve(label)
                 except Skip: out[label] = None; continue
                 d = {'__class__': type(obj).__name__}
@@ -786,7 +791,7 @@ class Exec(object):
         touches the collections (cached counts are an observable of their own)"""
         out = {}
         for root in self.env.root_entities:
-            for label in self.env.labels_of(root, (1, 2, 3)):
+            for label in self.universe(root):
                 try: obj = self.resolve(label)
                 except Skip: continue
                 for a in type(obj)._attrs_:
